@@ -17,10 +17,20 @@ harness/c07.py on every run.  `Tables.searchTreeIfDfs` is regenerated from the s
 `MetaMolecule.search_tree` on every run: the ring theorem is re-established against the constructor the
 `dfs` branch calls NOW.
 
+The ordering comparisons of the restraint tests (strict or not) are read from the source by the translator
+(`Generated/RestraintTables.lean`, harness/tables/restraints.py): the soundness theorems are proved for every
+table whose relations point the right way (`C07_table_sound`, re-established by `decide` against the operators
+the source contains NOW), `C07_boundary_table` / `C07_boundary_cases` pin the strictness itself.
+`graph_utils.compute_avg_step_length` / `_compute_path_length_cartesian` / `is_branched`,
+`restraints.set_restraints` and the batch bookkeeping of `persistence.sample_end_to_end_distances` are modelled
+too (`C07_avg_is_mean`, `C07_distance_window_registered`, `C07_ee_assignment`, `C07_ee_window`,
+`C07_ee_grid_uniform`, `C07_is_branched`).
+
 All distances are compared through their squares (`distLe s r` is `√s ≤ r`, `distGe s r` is `√s ≥ r`),
 which is exact over the reals; the implementation takes float square roots (trusted, see harness).
 -/
 import PolyplyVerif.Generated.Tables
+import PolyplyVerif.Generated.RestraintTables
 import PolyplyVerif.Model.Restraints
 import PolyplyVerif.Proofs.Restraints
 
@@ -200,5 +210,195 @@ theorem C07_ee_range (avg contour : Rat) (h : 0 < avg) :
   eeCandidates_range avg contour h
 
 example : eeCandidates (1 / 2) (9 / 4) = [1 / 2, 1, 3 / 2, 2] := by decide +kernel
+
+/-! ### the comparison operators of the source (translator: `Generated/RestraintTables.lean`) -/
+
+/-- **Table soundness.**  Every ordering comparison that the restraint tests of the CURRENT source make
+(`in_sphere`, `in_cylinder`, `in_rectangle`, `checks_milestones`, `is_restricted`; read by the translator on
+every run and normalised to "accepted iff quantity REL length") points the way the property needs: the
+"inside"/upper-bound tests accept only `≤`/`<`, the "outside"/lower-bound tests only `≥`/`>`.  All soundness
+theorems above are proved from this fact alone, for strict and non-strict operators alike; turning a comparison
+around in the source makes this theorem (and with it all of them) fail. -/
+theorem C07_table_sound :
+    upperRel RestraintTables.sphereIn ∧ lowerRel RestraintTables.sphereOut ∧
+    upperRel RestraintTables.cylInRadius ∧ upperRel RestraintTables.cylInHeight ∧
+    lowerRel RestraintTables.cylOutRadius ∧ lowerRel RestraintTables.cylOutHeight ∧
+    upperRel RestraintTables.rectInside ∧
+    upperRel RestraintTables.msUpper ∧ lowerRel RestraintTables.msLower ∧
+    upperRel RestraintTables.dirAngle := table_sound
+
+example : upperRel .lt ∧ upperRel .le ∧ lowerRel .gt ∧ lowerRel .ge ∧ ¬ upperRel .ge ∧ ¬ lowerRel .lt := by decide
+
+/-- **The operators themselves** (strictness = the fate of a point exactly on a boundary).  Changing `<` into
+`<=` (or `>` into `>=`) anywhere in the five functions changes the generated table and this theorem stops
+checking, although `C07_table_sound` still holds. -/
+theorem C07_boundary_table :
+    [RestraintTables.sphereIn, RestraintTables.sphereOut, RestraintTables.cylInRadius,
+      RestraintTables.cylInHeight, RestraintTables.cylOutRadius, RestraintTables.cylOutHeight,
+      RestraintTables.rectInside, RestraintTables.msUpper, RestraintTables.msLower, RestraintTables.dirAngle]
+    = [.le, .ge, .lt, .lt, .gt, .gt, .lt, .le, .ge, .le] := by decide
+
+/-- **Boundary cases**, for every centre, size and point: a point exactly ON a sphere is accepted by the `in` and
+by the `out` restraint; a point exactly ON the wall of a cylinder (inside the slab) is rejected by both; a point
+exactly on a face of a rectangle is rejected by `in` and accepted by `out`; a distance exactly equal to the upper
+or to the lower bound of a distance restraint is accepted. -/
+theorem C07_boundary_cases (p c : V3) (r h a b e : Rat) :
+    ((c.sub p).nsq = r * r → 0 ≤ r → inSphere p .inside c r = true ∧ inSphere p .outside c r = true) ∧
+    ((c.x - p.x) * (c.x - p.x) + (c.y - p.y) * (c.y - p.y) = r * r → 0 ≤ r → c.z - p.z ≤ rabs h →
+        inCylinder p .inside c r h = false ∧ inCylinder p .outside c r h = false) ∧
+    (rabs (c.x - p.x) = a → inRectangle p .inside c a b e = false ∧ inRectangle p .outside c a b e = true) ∧
+    (∀ (posOf : Nat → Option V3) (box q : V3) (k : Nat) (ub lb : Rat), posOf k = some q →
+        ((miSq p q box = ub * ub ∧ 0 ≤ ub ∧ lb ≤ 0) ∨ (miSq p q box = lb * lb ∧ 0 ≤ lb ∧ lb ≤ ub)) →
+        checksMilestones posOf box p [⟨k, ub, lb⟩] = true) := by
+  refine ⟨?_, ?_, ?_, ?_⟩
+  · intro hs hr
+    simp only [inSphere, RestraintTables.sphereIn, RestraintTables.sphereOut, cmpNorm, normGt, normLt, hs]
+    simp [not_lt.mpr hr]
+  · intro hs hr hz
+    simp only [inCylinder, V3.sub, RestraintTables.cylInRadius, RestraintTables.cylInHeight,
+      RestraintTables.cylOutRadius, RestraintTables.cylOutHeight, cmpNorm, cmpNum, normGt, normLt, hs]
+    simp only [lt_irrefl, decide_false, Bool.and_false, Bool.false_and, Bool.or_false, true_and]
+    have : ¬ (rabs h < c.z - p.z) := not_lt.mpr hz
+    simp [not_lt.mpr hr, this]
+  · intro ha
+    simp only [inRectangle, V3.sub, RestraintTables.rectInside, cmpNum, ha]
+    simp
+  · intro posOf box q k ub lb hq hcase
+    simp only [checksMilestones, List.all_cons, List.all_nil, hq, Bool.and_true, RestraintTables.msUpper,
+      RestraintTables.msLower, cmpNorm, normGt, normLt]
+    rcases hcase with ⟨hs, hu, hl⟩ | ⟨hs, hl, hlu⟩
+    · rw [hs]
+      simp [not_lt.mpr hu, not_lt.mpr hl]
+    · rw [hs]
+      have h1 : ¬ (ub < 0) := not_lt.mpr (hl.trans hlu)
+      have h2 : ¬ (ub * ub < lb * lb) := not_lt.mpr (by nlinarith)
+      simp [h1, h2]
+
+example : inSphere ⟨3, 0, 0⟩ .inside ⟨0, 4, 0⟩ 5 = true ∧ inSphere ⟨3, 0, 0⟩ .outside ⟨0, 4, 0⟩ 5 = true ∧
+    inCylinder ⟨3, 0, 0⟩ .inside ⟨0, 4, 0⟩ 5 1 = false ∧ inCylinder ⟨3, 0, 0⟩ .outside ⟨0, 4, 0⟩ 5 1 = false ∧
+    inRectangle ⟨3, 0, 0⟩ .inside ⟨0, 0, 0⟩ 3 1 1 = false ∧ inRectangle ⟨3, 0, 0⟩ .outside ⟨0, 0, 0⟩ 3 1 1 = true := by
+  decide +kernel
+
+/-- the angle bound is closed as well: a step that makes EXACTLY the reference angle with the normal
+(`(n·step)² = cos²·‖n‖²‖step‖²`, acute case) on the declared side is accepted -/
+theorem C07_boundary_direction (o : RwOption) (step : V3)
+    (hs : ratSign (o.normal.dot step) = o.sgn) (hd : 0 ≤ o.normal.dot step)
+    (he : o.cosRef * o.cosRef * (o.normal.nsq * step.nsq) = o.normal.dot step * o.normal.dot step) :
+    isRestricted (some o) step = true := by
+  simp only [isRestricted, hs, bne_self_eq_false, Bool.false_eq_true, if_false, RestraintTables.dirAngle,
+    angleCmpB, cosGeB, hd, if_true, he]
+  simp
+
+-- 60° between (0,0,1) and (0,√3,1)·k is not rational; a 3-4-5 instance: cos = 3/5, n = (0,0,1), step = (0,4,3)
+example : isRestricted (some ⟨⟨0, 0, 1⟩, 1, 3 / 5⟩) ⟨0, 4, 3⟩ = true ∧
+    isRestricted (some ⟨⟨0, 0, 1⟩, 1, 3 / 5⟩) ⟨0, 4, 3 - 1 / 100⟩ = false := by decide +kernel
+
+/-! ### the average step length the windows are built with (`graph_utils.compute_avg_step_length`) -/
+
+/-- **`avg` is the mean pair size over the path edges**, the contour length their sum, for a path of ANY
+length: `avg · len(path) = contour = Σ size(u, v)`; the mean lies between the smallest and the largest pair size
+on the path, and (no negative size) between 0 and the contour length. -/
+theorem C07_avg_is_mean (size : Nat → Nat → Rat) (path : List (Nat × Nat)) (a c : Rat)
+    (h : computeAvgStepLength size path = some (a, c)) :
+    path ≠ [] ∧ c = (path.map fun e => size e.1 e.2).sum ∧ a * (path.length : Rat) = c ∧
+      (∀ lo hi, (∀ e ∈ path, lo ≤ size e.1 e.2 ∧ size e.1 e.2 ≤ hi) → lo ≤ a ∧ a ≤ hi) ∧
+      ((∀ e ∈ path, 0 ≤ size e.1 e.2) → 0 ≤ a ∧ a ≤ c) := by
+  obtain ⟨h1, h2, h3, _⟩ := computeAvg_spec size path a c h
+  exact ⟨h1, h2, h3, fun lo hi hb => computeAvg_between size path a c lo hi h hb,
+    fun hb => computeAvg_le_contour size path a c h hb⟩
+
+/-- pair sizes 2/5, 1/2, 3/5 along a path of three edges: contour 3/2, average 1/2 -/
+example : computeAvgStepLength (fun u v => if u + v = 1 then 2 / 5 else if u + v = 3 then 1 / 2 else 3 / 5)
+    [(0, 1), (1, 2), (2, 3)] = some (1 / 2, 3 / 2) := by decide +kernel
+
+/-- **Declared distance restraints with the average the program uses.**  `set_restraints` registers every
+declared restraint `(ref, target, d, tol)` of a molecule with `avg` = the mean pair size over ALL edges of the
+search tree; if all registrations succeed then for every declared restraint the two residues are joined by a tree
+path `r … t` (`r` the earlier placed end) and every position of `t` accepted by `update_positions` while `r` is
+placed has its minimum-image distance to `r` inside `[d − tol, d + tol + avg]` with THIS `avg` — whatever other
+restraints were registered before or after it, for every tree and path length. -/
+theorem C07_distance_window_registered (tree : List (Nat × Nat)) (size : Nat → Nat → Rat) (store store' : DStore)
+    (ds : List Declared) (hset : setRestraints tree size store ds = .ok store') :
+    ∀ r ∈ ds, ∃ avg c rr tt mid, computeAvgStepLength size tree = some (avg, c) ∧
+      avg * (tree.length : Rat) = (tree.map fun e => size e.1 e.2).sum ∧
+      ((rr = r.ref ∧ tt = r.target) ∨ (rr = r.target ∧ tt = r.ref)) ∧
+      pathFrom tree rr tt = some (rr :: mid ++ [tt]) ∧
+      (tt ∉ rr :: mid →
+        ∀ (regions : List Region) (opt : Option RwOption) (posOf : Nat → Option V3) (box last step q : V3)
+          (bend overlap : Bool),
+          acceptStep regions (store'.get tt) opt posOf box last step bend overlap = true → posOf rr = some q →
+          inWindow (miSq (wrapV (last.add step) box) q box) (r.d - r.tol) (r.d + r.tol + avg)) := by
+  intro r hr
+  obtain ⟨avg, c, rr, tt, mid, havg, hrt, hp, hmem⟩ := (setRestraints_entries tree size ds store store' hset).2 r hr
+  obtain ⟨_, hc, hmul, _⟩ := computeAvg_spec size tree avg c havg
+  refine ⟨avg, c, rr, tt, mid, havg, by rw [hmul, hc], hrt, hp, fun hnd => ?_⟩
+  intro regions opt posOf box last step q bend overlap hacc hq
+  exact milestones_sound posOf box _ (store'.get tt) (acceptStep_parts hacc).2.1
+    ⟨rr, r.d + r.tol + avg, r.d - r.tol⟩ (hmem hnd) q hq
+
+/-- a chain 0-1-2-3 with pair sizes 2/5, 1/2, 3/5 (mean 1/2) and two declared restraints -/
+example : setRestraints [(0, 1), (1, 2), (2, 3)]
+      (fun u v => if u + v = 1 then 2 / 5 else if u + v = 3 then 1 / 2 else 3 / 5) []
+      [⟨0, 3, 1, 1 / 4⟩, ⟨2, 0, 1 / 2, 0⟩]
+    = .ok [(1, [⟨0, 9 / 4, 1 / 12⟩, ⟨0, 1, 1 / 4⟩]), (2, [⟨0, 7 / 4, 5 / 12⟩, ⟨0, 1, 1 / 2⟩]),
+           (3, [⟨0, 7 / 4, 3 / 4⟩])] := by decide +kernel
+
+/-- **Persistence batches: who receives which sampled distance.**  For one batch `(start, stop, mol_idxs)` the
+average step and the contour length are those of the tree path `start … stop` (mean and sum of the pair sizes
+over ITS edges, `len(path) − 1` of them), and the k-th molecule of the batch is restrained with the k-th sampled
+distance — `set_distance_restraint(molecule k, stop, start, sample k, avg, tolerance 0)` — nothing else. -/
+theorem C07_ee_assignment (tree : List (Nat × Nat)) (size : Nat → Nat → Rat) (start stop : Nat)
+    (molIdxs : List Nat) (samples : List Rat) (avg contour : Rat) (calls : List EeCall)
+    (h : sampleBatch tree size start stop molIdxs samples = some (avg, contour, calls)) :
+    ∃ mid, pathFrom tree start stop = some (start :: mid ++ [stop]) ∧
+      computeAvgStepLength size (edgePath (start :: mid ++ [stop])) = some (avg, contour) ∧
+      (edgePath (start :: mid ++ [stop])).length = mid.length + 1 ∧
+      calls.length = min molIdxs.length samples.length ∧
+      ∀ k (hk : k < calls.length), ∃ (h1 : k < molIdxs.length) (h2 : k < samples.length),
+        calls[k] = ⟨molIdxs[k], stop, start, samples[k], avg⟩ := by
+  obtain ⟨mid, hp, hc, hl, hk⟩ := sampleBatch_spec tree size start stop molIdxs samples avg contour calls h
+  refine ⟨mid, hp, hc, ?_, hl, hk⟩
+  rw [edgePath_length]; simp
+
+example : sampleBatch [(0, 1), (1, 2), (2, 3)] (fun _ _ => 1 / 2) 0 3 [4, 7] [1, 1 / 2]
+    = some (1 / 2, 3 / 2, [⟨4, 3, 0, 1, 1 / 2⟩, ⟨7, 3, 0, 1 / 2, 1 / 2⟩]) := by decide +kernel
+
+/-- … and what such a call enforces: the end-to-end distance of that molecule lies in
+`[sample, sample + avg]` (an instance of `C07_distance_window` with tolerance 0). -/
+theorem C07_ee_window (tree : List (Nat × Nat)) (store store' : DStore) (call : EeCall)
+    (hset : setDistanceRestraint tree store call.target call.ref call.d call.avg 0 = .ok store') :
+    ∃ r t mid, ((r = call.ref ∧ t = call.target) ∨ (r = call.target ∧ t = call.ref)) ∧
+      pathFrom tree r t = some (r :: mid ++ [t]) ∧
+      (t ∉ r :: mid →
+        ∀ (regions : List Region) (opt : Option RwOption) (posOf : Nat → Option V3) (box last step q : V3)
+          (bend overlap : Bool),
+          acceptStep regions (store'.get t) opt posOf box last step bend overlap = true → posOf r = some q →
+          inWindow (miSq (wrapV (last.add step) box) q box) call.d (call.d + call.avg)) := by
+  obtain ⟨r, t, mid, hrt, hp, hw⟩ := C07_distance_window tree store store' call.target call.ref call.d call.avg 0 hset
+  refine ⟨r, t, mid, hrt, hp, fun hnd => ?_⟩
+  intro regions opt posOf box last step q bend overlap hacc hq
+  have := (hw hnd).2 regions opt posOf box last step q bend overlap hacc hq
+  simpa using this
+
+example : setDistanceRestraint [(0, 1), (1, 2), (2, 3)] [] 3 0 1 (1 / 2) 0
+    = .ok [(1, [⟨0, 2, 1 / 3⟩]), (2, [⟨0, 3 / 2, 2 / 3⟩]), (3, [⟨0, 3 / 2, 1⟩])] := by decide +kernel
+
+/-- **The candidate grid of a stretch of `n` equal steps** is exactly `avg, 2·avg, …, (n−1)·avg`: `n − 1`
+candidates, none for a stretch of a single edge (the program then fails in `np.random.choice`). -/
+theorem C07_ee_grid_uniform (avg : Rat) (n : Nat) (h : 0 < avg) :
+    eeCandidates avg ((n : Rat) * avg) = (List.range (n - 1)).map fun (i : Nat) => avg + (i : Rat) * avg :=
+  eeCandidates_uniform avg n h
+
+example : eeCandidates (1 / 2) ((4 : Nat) * (1 / 2)) = [1 / 2, 1, 3 / 2] ∧ eeCandidates (1 / 2) ((1 : Nat) * (1 / 2)) = [] := by
+  decide +kernel
+
+/-- `is_branched`: false exactly when no residue has more than two neighbours -/
+theorem C07_is_branched (g : Adj) : isBranched g = false ↔ ∀ e ∈ g, e.2.length ≤ 2 := by
+  unfold isBranched
+  rw [Bool.eq_false_iff]
+  simp only [ne_eq, List.any_eq_true, decide_eq_true_eq, not_exists, not_and, not_lt]
+
+example : isBranched [(0, [1]), (1, [0, 2, 3]), (2, [1]), (3, [1])] = true ∧ isBranched (ringAdj 5) = false := by
+  decide +kernel
 
 end PolyplyVerif.C07
